@@ -31,11 +31,13 @@ def phase_panel(run, pool):
 def phase_paths(run, pool):
     """C17: exhaustive sweep routine x operator kind x {explicit key, default key} with one reused algorithm object."""
     t = time.time()
-    progs = P.path_programs_c17()
+    progs = P.path_programs_c17() + P.large_programs_c17()  # the large-draw programs also run here, invariants on
     n0 = run.evals
     pool.run(({"id": i, "kind": "program", "program": p["program"], "name": p["name"], "want_program": False,
-               "deadline": 240, "run_seed": "path:" + p["name"]} for i, p in enumerate(progs)), run.absorb)
-    run.phase_info["dispatch_path_sweep"] = {"programs": run.evals - n0, "routines": len(P.PATH_ROUTINES),
+               "deadline": 240, "run_seed": ("large:" if p["program"]["config"].get("large") else "path:") + p["name"]}
+              for i, p in enumerate(progs)), run.absorb)
+    run.phase_info["dispatch_path_sweep"] = {"programs": run.evals - n0, "algorithm_classes": len(P.PATH_CLASSES),
+                                            "entry_points_accepting_the_object": len(P.PATH_ROUTINES),
                                             "operator_kinds": len(P.path_kinds()), "exhaustive": True,
                                             "wall_s": round(time.time() - t, 1)}
 
